@@ -201,6 +201,10 @@ func genSE(r *vlib.Rand, ns, name string) string {
 		for j := 0; j < ne; j++ {
 			// endpoint 0 of ns1/s0 is the sidecar's own address
 			fmt.Fprintf(&b, "- address: 10.%d.%d.%d\n  labels:\n    app: %s\n    version: v%d\n", nsIdx(ns), nameIdx(name), 1+r.Intn(4), name, 1+r.Intn(2))
+			if r.Chance(50) {
+				// sidecar-injected workload: its ClusterLoadAssignment entry carries tlsMode metadata unless a DestinationRule disables TLS
+				b.WriteString("    security.istio.io/tlsMode: istio\n")
+			}
 			if r.Chance(20) {
 				fmt.Fprintf(&b, "  locality: region%d/zone%d\n", r.Intn(2), r.Intn(2))
 			}
@@ -298,14 +302,53 @@ func genVS(r *vlib.Rand, ns, name string) string {
 	return b.String()
 }
 
+// hosts on which DestinationRules pile up (several rules feeding ONE host: same-namespace rules are merged, a
+// client-namespace rule overrides a service-namespace rule)
+var hotHosts = []string{"s0.ns1.example", "s1.ns2.example"}
+
+func pickDRHost(r *vlib.Rand) string {
+	if r.Chance(65) {
+		return vlib.Pick(r, hotHosts)
+	}
+	return pickHost(r)
+}
+
+func drSubsets(r *vlib.Rand, b *strings.Builder) {
+	b.WriteString("subsets:\n")
+	n := 0
+	for v := 1; v <= 2; v++ {
+		if r.Chance(75) {
+			// the selected label value varies: it decides which endpoints the subset cluster's load assignment contains
+			fmt.Fprintf(b, "- name: v%d\n  labels:\n    version: v%d\n", v, vlib.Pick(r, []int{v, v, 3 - v}))
+			if r.Chance(30) {
+				fmt.Fprintf(b, "  trafficPolicy:\n    loadBalancer:\n      simple: %s\n", vlib.Pick(r, []string{"ROUND_ROBIN", "RANDOM"}))
+			}
+			n++
+		}
+	}
+	if n == 0 {
+		b.WriteString("- name: v1\n  labels:\n    version: v1\n")
+	}
+}
+
+func drTLS(r *vlib.Rand, b *strings.Builder) {
+	fmt.Fprintf(b, "  tls:\n    mode: %s\n", vlib.Pick(r, []string{"DISABLE", "DISABLE", "ISTIO_MUTUAL", "SIMPLE"}))
+}
+
+// genDR: role 0 = subsets only, role 1 = traffic policy only (TLS and/or load balancing, locality), role 2 = both.
+// Rules of role 0 and 1 on the same host have disjoint fields, so the merged rule really depends on both.
 func genDR(r *vlib.Rand, ns, name string) string {
 	var b strings.Builder
-	fmt.Fprintf(&b, "host: %s\n", pickHost(r))
-	if r.Chance(80) {
+	fmt.Fprintf(&b, "host: %s\n", pickDRHost(r))
+	role := r.Intn(3)
+	if role != 0 {
 		b.WriteString("trafficPolicy:\n")
 		n := 0
-		if r.Chance(60) {
+		if r.Chance(50) {
 			fmt.Fprintf(&b, "  loadBalancer:\n    simple: %s\n", vlib.Pick(r, []string{"ROUND_ROBIN", "LEAST_REQUEST", "RANDOM", "PASSTHROUGH"}))
+			if r.Chance(30) {
+				fmt.Fprintf(&b, "    localityLbSetting:\n      enabled: %v\n", r.Bool())
+			}
 			n++
 		}
 		if r.Chance(30) {
@@ -316,26 +359,76 @@ func genDR(r *vlib.Rand, ns, name string) string {
 			fmt.Fprintf(&b, "  outlierDetection:\n    consecutive5xxErrors: %d\n", 1+r.Intn(9))
 			n++
 		}
-		if r.Chance(40) || n == 0 {
-			fmt.Fprintf(&b, "  tls:\n    mode: %s\n", vlib.Pick(r, []string{"DISABLE", "ISTIO_MUTUAL", "SIMPLE"}))
+		if r.Chance(55) || n == 0 {
+			drTLS(r, &b)
 		}
 	}
-	if r.Chance(50) {
-		b.WriteString("subsets:\n")
-		for v := 1; v <= 2; v++ {
-			if r.Chance(75) {
-				fmt.Fprintf(&b, "- name: v%d\n  labels:\n    version: v%d\n", v, v)
-				if r.Chance(30) {
-					fmt.Fprintf(&b, "  trafficPolicy:\n    loadBalancer:\n      simple: %s\n", vlib.Pick(r, []string{"ROUND_ROBIN", "RANDOM"}))
-				}
-			}
-		}
-		if strings.HasSuffix(b.String(), "subsets:\n") {
-			b.WriteString("- name: v1\n  labels:\n    version: v1\n")
-		}
+	if role == 0 || (role == 2 && r.Chance(60)) {
+		drSubsets(r, &b)
 	}
 	b.WriteString(exportTo(r))
 	return b.String()
+}
+
+// seedRules puts two or three DestinationRules with disjoint roles on one hot host (same namespace => merged;
+// plus sometimes a client-namespace override) and makes sure the host has labelled STATIC endpoints.
+func seedRules(w *world, r *vlib.Rand) error {
+	host := vlib.Pick(r, hotHosts)
+	svcNs, svcName := nsA, "s0"
+	if host == "s1.ns2.example" {
+		svcNs, svcName = nsB, "s1"
+	}
+	var se strings.Builder
+	fmt.Fprintf(&se, "hosts: [%q]\naddresses: [\"240.%d.%d.1\"]\nlocation: MESH_INTERNAL\nresolution: STATIC\nports:\n- number: 80\n  name: http\n  protocol: HTTP\n", host, nsIdx(svcNs), nameIdx(svcName))
+	if r.Bool() {
+		se.WriteString("- number: 9000\n  name: tcp\n  protocol: TCP\n")
+	}
+	se.WriteString("endpoints:\n")
+	for j := 1; j <= 2+r.Intn(2); j++ {
+		fmt.Fprintf(&se, "- address: 10.%d.%d.%d\n  labels:\n    app: %s\n    version: v%d\n    security.istio.io/tlsMode: istio\n", nsIdx(svcNs), nameIdx(svcName), j, svcName, 1+j%2)
+	}
+	put := func(k okey, spec string) error {
+		delete(w.objs, k)
+		c, err := w.mkCfg(k, spec)
+		if err != nil {
+			return err
+		}
+		w.objs[k] = c
+		return nil
+	}
+	if err := put(okey{kind.ServiceEntry, svcNs, svcName}, se.String()); err != nil {
+		return err
+	}
+	var a, b, c strings.Builder
+	fmt.Fprintf(&a, "host: %s\n", host)
+	drSubsets(r, &a)
+	fmt.Fprintf(&b, "host: %s\ntrafficPolicy:\n", host)
+	drTLS(r, &b)
+	names := []string{"d0", "d1"}
+	if r.Bool() {
+		names = []string{"d1", "d0"} // which of the two is older (merge order)
+	}
+	if err := put(okey{kind.DestinationRule, svcNs, names[0]}, a.String()); err != nil {
+		return err
+	}
+	if err := put(okey{kind.DestinationRule, svcNs, names[1]}, b.String()); err != nil {
+		return err
+	}
+	if r.Chance(50) {
+		// a third rule: client namespace (or root namespace) rule for the same host
+		ns := nsRoot
+		if svcNs == nsB && r.Bool() {
+			ns = nsA
+		}
+		fmt.Fprintf(&c, "host: %s\ntrafficPolicy:\n  loadBalancer:\n    simple: %s\n", host, vlib.Pick(r, []string{"RANDOM", "LEAST_REQUEST"}))
+		if r.Bool() {
+			drTLS(r, &c)
+		}
+		if err := put(okey{kind.DestinationRule, ns, "d2"}, c.String()); err != nil {
+			return err
+		}
+	}
+	return nil
 }
 
 func genSidecar(r *vlib.Rand, ns, name string) string {
@@ -491,7 +584,7 @@ type kindGen struct {
 var kindGens = []kindGen{
 	{kind.ServiceEntry, genSE, []string{nsA, nsA, nsB}, seNames},
 	{kind.VirtualService, genVS, []string{nsA, nsA, nsB}, []string{"v0", "v1"}},
-	{kind.DestinationRule, genDR, []string{nsA, nsA, nsB, nsRoot}, []string{"d0", "d1"}},
+	{kind.DestinationRule, genDR, []string{nsA, nsA, nsB, nsB, nsRoot}, []string{"d0", "d1", "d2"}},
 	{kind.Sidecar, genSidecar, []string{nsA, nsA, nsRoot}, []string{"default", "c1"}},
 	{kind.Gateway, genGateway, []string{nsA}, []string{"gw0", "gw1"}},
 	{kind.PeerAuthentication, genPA, []string{nsA, nsRoot, nsB}, []string{"p0", "p1"}},
